@@ -44,6 +44,12 @@ Definition css_paints_box_decoration (k : kind) : bool :=
 (* "Transforms apply to block-level and atomic inline-level elements" *)
 Definition css_transformable (k : kind) : bool := negb (css_inline_box k).
 
+(* CSS Transforms 1, 7: "If a transform function causes the current transformation
+   matrix of an object to be non-invertible, the object and its content do not get
+   displayed." *)
+Definition css_not_displayed (i : binfo) : bool :=
+  btrans i && css_transformable (bkind i) && bsing i.
+
 Fixpoint height (b : box) : nat :=
   match b with Box _ cs => S (fold_right (fun c m => Nat.max (height c) m) 0 cs) end.
 
@@ -164,6 +170,9 @@ Section Spec.
       let neg := filter (fun d => forms_ctx (binfo_of d) && (blevel d <? 0)%Z) H in
       let mid := filter (fun d => negb (forms_ctx (binfo_of d)) || (blevel d =? 0)%Z) H in
       let pos := filter (fun d => forms_ctx (binfo_of d) && (0 <? blevel d)%Z) H in
+      (* a non-invertible transform: the box and its content are not displayed; everything
+         else of the enclosing context (later steps, later contexts) is unaffected *)
+      if css_not_displayed i then [] else
       (* group effects apply to everything the box paints *)
       wrap EOpacity (bopac i) id
        (wrap ETransform (btrans i && css_transformable k) id
